@@ -258,3 +258,10 @@ func init() {
 		Assumptions: []string{"Go map iteration order is unspecified (modelled as: any entry may be visited first)"},
 	})
 }
+
+// rule addenda (rounds 9-12): what the evidence says about the coverage of a run
+func init() {
+	if p := registry["C20"]; p != nil {
+		p.Rule += " Histories in both orders in fresh processes (ToGo before the first FromGo and after it), 16 child processes."
+	}
+}
